@@ -138,6 +138,31 @@ func ErrLine(err error) int {
 	return ErrLineOf(err.Error())
 }
 
+// ErrLineItem splits an error text "<line>:<token>: <message>" into the line and the token the parser
+// names: the token text (unquoted; "EOF" at the end of the input; "" after it), or "*" when the text in
+// that place is not a token (the lexer's own message for an illegal character).  Line 0, "*" = no such form.
+func ErrLineItem(text string) (int, string) {
+	m := reLine.FindStringSubmatch(text)
+	if m == nil {
+		return 0, "*"
+	}
+	line := ErrLineOf(text)
+	rest := text[len(m[0]):]
+	switch {
+	case strings.HasPrefix(rest, "EOF: "):
+		return line, "EOF"
+	case strings.HasPrefix(rest, ": "):
+		return line, ""
+	case strings.HasPrefix(rest, "\""):
+		if q, err := strconv.QuotedPrefix(rest); err == nil {
+			if s, err := strconv.Unquote(q); err == nil {
+				return line, s
+			}
+		}
+	}
+	return line, "*"
+}
+
 // ErrLineOf is ErrLine on the error text.
 func ErrLineOf(text string) int {
 	m := reLine.FindStringSubmatch(text)
